@@ -15,7 +15,7 @@ from common import req, close, relerr, TOL, run_driver
 import mixgen
 
 META = {
-    'text': 'Theorems (Lean 4, reals, every component count and relabelling): mole fractions and all PR coefficients (A, B, Ap, Bp, incl. the group-contribution delta_ij computed inside coefs) are invariant under scaling of all masses, equivariant under relabelling of the components and unchanged by an appended zero-mass component; the equivalent diameter scales with the cube root of the factor. Scale invariance is ALSO proved directly about the code regenerated from dbm_p.py on every run (gen_*_smul: mole_fraction, coefs with both delta branches, z_pr, fugacity, density, for every root finder and all list lengths). The routines not re-proved (viscosity, interfacial tension, solubility, flash) consume masses only through these; all of them are evaluated on the real code on (m, lambda*m, permuted m, m+[0]) for both back ends.',
+    'text': 'Theorems (Lean 4, reals, every component count and relabelling): mole fractions and all PR coefficients (A, B, Ap, Bp, incl. the group-contribution delta_ij computed inside coefs) are invariant under scaling of all masses, equivariant under relabelling of the components and unchanged by an appended zero-mass component; the equivalent diameter scales with the cube root of the factor. Scale invariance is ALSO proved directly about the code regenerated from dbm_p.py on every run (gen_*_smul: mole_fraction, coefs with both delta branches, z_pr, fugacity, density, for every root finder and all list lengths), and the relabelling theorem is proved about the regenerated coefs for a user / zero interaction matrix (gen_coefs_perm_no_gc_partial; the group-contribution double loop only on the hand model). The routines not re-proved (viscosity, interfacial tension, solubility, flash) consume masses only through these; all of them are evaluated on the real code on (m, lambda*m, permuted m, m+[0]) for both back ends.',
     'note': 'Trusted: Lean kernel + 3 standard axioms; hand model of mole_fraction/coefs (tied by correspondence in C01 and here); real arithmetic for doubles. Partial: invariance of viscosity, interface_tension, solubility and the flash is decided on the real code by sampling (structural argument only in Lean); flash results are compared at solver tolerance.',
     'technique': 'Lean 4 invariance/equivariance proofs over a hand-written executable model + metamorphic execution of the real code on both back ends',
 }
@@ -30,7 +30,7 @@ FLASH_TOL = 5e-5
 
 def audit_files():
     return ['TamocV/Num.lean', 'TamocV/Real.lean', 'TamocV/Model/Eos.lean', 'TamocV/Lemmas/Basic.lean',
-            'TamocV/Lemmas/Eos.lean', 'TamocV/Lemmas/C10.lean', 'TamocV/Lemmas/EosRefine.lean', 'TamocV/Props/C10.lean', 'TamocV/Props/C10Gen.lean']
+            'TamocV/Lemmas/Eos.lean', 'TamocV/Lemmas/C10.lean', 'TamocV/Lemmas/EosRefine.lean', 'TamocV/Props/C10.lean', 'TamocV/Props/C10Gen.lean', 'TamocV/Lemmas/C10Gen.lean', 'TamocV/Props/C01.lean', 'TamocV/Lemmas/C01.lean']
 
 
 class Timeout(Exception):
